@@ -357,7 +357,9 @@ def workerPut (s : State) (id hash : Nat) (w : Int) (k v : Nat) (ttl : Option Na
     | .error m => .error m
     | .ok r =>
       let s1 := r.evicted.foldl applyEvict { s with adm := r.adm }
-      if r.status = .accepted then
+      -- `is_space_available_for` overflowed (cache_weight.rs:222): the worker dies where it stands, after the evictions made so far
+      if r.overflow then .ok (.panicked s1 .weightOverflow, r.oracle)
+      else if r.status = .accepted then
         let s2 := { s1 with stats := { s1.stats with weightAdded := (s1.stats.weightAdded + w.toNat) % u64Mod } }
         match ttl with
         | none =>
